@@ -135,26 +135,30 @@ struct Recovered {
 
 static void RunRecovery(const std::string& dir, RefLedger& L, int out_fd)
 {
-    // child: real start-up on the crash state
+    // child: real start-up on the crash state. All children are forks of the same process image, so the "random"
+    // temp-dir name BasicTestingSetup draws is the same in each of them: give every child its own TMPDIR, and never
+    // run the fixture's destructor (it removes that directory) - the child _exit()s, the parent cleans up.
+    setenv("TMPDIR", (dir + ".tmp").c_str(), 1);
+    sfs::create_directories(dir + ".tmp");
     std::string res;
     try {
-        Node node(DiskOpts(dir));
-        std::string err = node.Load(false);
+        Node* node = new Node(DiskOpts(dir)); // intentionally leaked
+        std::string err = node->Load(false);
         if (!err.empty()) res = "ERR\t" + err;
         else {
-            uint256 t1 = node.tip() ? node.tip()->GetBlockHash() : uint256{};
-            int h1 = node.tip() ? node.height() : -1;
+            uint256 t1 = node->tip() ? node->tip()->GetBlockHash() : uint256{};
+            int h1 = node->tip() ? node->height() : -1;
             std::string diff;
             bool known = L.Known(t1);
             if (known) {
                 auto ref = L.UtxoAt(t1);
-                diff = ref ? CompareUtxoCursor(node, *ref) : "reference says the recovered tip's chain is invalid";
+                diff = ref ? CompareUtxoCursor(*node, *ref) : "reference says the recovered tip's chain is invalid";
             }
-            std::string err2 = node.Activate();
+            std::string err2 = node->Activate();
             if (!err2.empty()) res = "ERR\t" + err2;
             else {
-                uint256 t2 = node.tip()->GetBlockHash();
-                res = "OK\t" + t1.ToString() + "\t" + std::to_string(h1) + "\t" + t2.ToString() + "\t" + std::to_string(node.height()) + "\t" + (known ? "1" : "0") + "\t" + diff;
+                uint256 t2 = node->tip()->GetBlockHash();
+                res = "OK\t" + t1.ToString() + "\t" + std::to_string(h1) + "\t" + t2.ToString() + "\t" + std::to_string(node->height()) + "\t" + (known ? "1" : "0") + "\t" + diff;
             }
         }
     } catch (const std::exception& e) {
@@ -303,6 +307,7 @@ int main(int argc, char** argv)
             judge(running[i], line, died, status);
             if (done < 4) E.sample("crash state {" + states[chosen[running[i].idx]].describe() + "} -> " + line.substr(0, 160));
             sfs::remove_all(running[i].dir);
+            sfs::remove_all(running[i].dir + ".tmp");
             running.erase(running.begin() + i);
             done++;
             break;
